@@ -148,6 +148,11 @@ class WorldGen:
             if self.zids:
                 return f"[{r.choice(self.zids)}]"
             return f"[[{pn}]]"
+        if x < 0.745 and self.has("links"):
+            return r.choice(["https://www.example.com/a/b?c=d#e", "http://foo.bar", "((embed))", "[!site]"])
+        if x < 0.76 and self.has("props"):
+            # inline, quoted (must be ignored) and url-valued properties
+            return r.choice(["[ik::foo]", "[ik:: two words]", "'qk::quoted'", '"qk::quoted"', "uk::https://a.b/c", "[ik::a::b]"])
         if x < 0.80 and self.has("props"):
             key = r.choice(PROP_KEYS)
             if key == "due":
@@ -226,7 +231,15 @@ class WorldGen:
                 elif x < 0.8:
                     lines.append("  " + " ".join(self.words(first=False)))
                 elif self.has("bullet_props"):
-                    lines.append(f"  * bp{r.randrange(3)}:: " + " ".join(r.choice(PLAIN) for _ in range(r.randint(1, 3))))
+                    y = r.random()
+                    if y < 0.7:
+                        lines.append(f"  * bp{r.randrange(3)}:: " + " ".join(r.choice(PLAIN) for _ in range(r.randint(1, 3))))
+                    elif y < 0.85:
+                        lines.append("  * [X] done " + r.choice(PLAIN))
+                        lines.append("  * [ ] open " + r.choice(PLAIN))
+                    else:
+                        lines.append("  * DRAWER:")
+                        lines.append(f"    - dk{r.randrange(2)}:: " + r.choice(PLAIN) + " " + r.choice(PLAIN))
                 else:
                     lines.append("  * " + r.choice(PLAIN))
             if self.has("double_space") and r.random() < 0.2:
